@@ -19,7 +19,8 @@ LEVEL_TEXT = ("Proof + correspondence (PARTIAL for the script-splitting stage): 
               "an independent GPOS interpreter reads from compiled fonts, for every ordered glyph pair under every script tag; "
               "getKerningData's pair list is compared with the Gallina kerning_pairs. The per-script split/merge/registration of "
               "kernFeatureWriter is not transcribed into Coq: its effect is only checked through spec_C05 on generated fonts. "
-              "kernFeatureWriter2 is checked through the same predicate and against writer 1 on single-direction fonts.")
+              "kernFeatureWriter2 is checked through the same predicate and against writer 1 on single-direction fonts."
+              " Kerning lookups are registered through ast.addLookupReferences, translated from /repo's source on every run (Generated/FeaGen.v, Fea/LookupRefsTied.v): the default language system and every listed language reach exactly the lookups (theorem about the translated code).")
 LEVEL_NOTE = ("Trusted: Coq kernel, hand models, harness, our GPOS interpreter (harness/otl.py, written from the OpenType spec; no "
               "HarfBuzz available), glyph->script classification taken from the real classifyGlyphs (whose bidi instance is compared with the Gallina classify of Mark/Direction.v on random substitution graphs), feaLib/otlLib "
               "compilation. Known finding F10 (rule mixing R and L bidi glyphs is dropped whole) is recognised by signature.")
